@@ -115,9 +115,10 @@ Inductive ep_kind :=
 | ECreate           (* creates a marker: there is no access list to hold a right on yet; the sender
                        becomes the manager.  03_messages Msg/AddMarker, Msg/AddFinalizeActivateMarker *)
 | ETransfer         (* MsgTransferRequest: Marker/Authz.v [transfer] *)
-| EIbcTransfer      (* MsgIbcTransferRequest: TRANSFER on the marker (and the source's authz grant
-                       when the administrator is not the source); stated from the source only, the
-                       harness has no IBC channel to run it on *)
+| EIbcTransfer      (* MsgIbcTransferRequest: Marker/Authz.v [ibc_transfer]: TRANSFER on the marker and
+                       the sender's authz grant when the administrator is not the sender (no forced
+                       variant); run by the harness on a second marker keeper whose ibc transfer
+                       server escrows the token *)
 | EModuleGov.       (* module parameters: the governance account; no marker is involved *)
 
 Record endpoint := { ep_rpc : string; ep_kind_of : ep_kind; ep_guards : list string }.
